@@ -183,6 +183,19 @@ func runClose(cs *Case) *Result {
 			ctl.mu.Unlock()
 			close(ready)
 			srv.Close()
+			// the return of Close is observed here as well: a Close that returns without passing
+			// its last schedule point (an early return) must not escape the bookkeeping
+			ctl.mu.Lock()
+			role := "c" + strconv.Itoa(i)
+			if ctl.parked[role] != "returned" {
+				if ctl.started != ctl.ended {
+					ctl.viol = append(ctl.viol, "Close-returned-while-handler-running")
+				}
+				ctl.returns++
+				ctl.parked[role] = "returned"
+				ctl.cond.Broadcast()
+			}
+			ctl.mu.Unlock()
 		}()
 		<-ready
 		ctl.waitParked("c"+strconv.Itoa(i), "close:enter")
